@@ -201,10 +201,11 @@ func cmdCheck(args []string) int {
 			Solver: v.Solver, SolverOut: truncate(v.Detail, 4000), Repo: *repo}
 		if v.Status == "refuted" {
 			rf.Status = "refuted"
-			runReplay(*verif, *repo, rf)
 		} else {
 			rf.Status = "undischarged"
 		}
+		// replay the model (or, without a model, the hand-written history for this obligation) on the real code
+		runReplay(*verif, *repo, rf)
 		report(rf)
 		if *verbose {
 			fmt.Fprintf(os.Stderr, "  %s: %s %s\n", v.Status, o.Name, firstLines(v.Detail, 2))
